@@ -336,6 +336,9 @@ func init() {
 				{32, [][]ttOp{{w(7, 1, 1, 1)}, {w(9, 1, 2, 2)}, {r(7)}}},                        // reader of the key that gets replaced
 				{32, [][]ttOp{{w(7, 1, 1, 1)}, {w(9, 1, 1, 2)}, {r(7), r(9)}}},                  // equal value: each store replaces the other
 				{32, [][]ttOp{{w(7, 1, 1, 1), w(7, 1, 3, 3)}, {w(9, 1, 2, 2)}, {r(9), r(7)}}},   // 7 -> 9 -> 7 in one slot
+				{32, [][]ttOp{{w(7, 1, 1, 1)}, {w(7, 1, 1, 2)}, {r(7)}}},                        // the same position stored again at the same ply and depth (the common case in a search), with a reader
+				{32, [][]ttOp{{w(7, 1, 1, 1), w(7, 1, 1, 3)}, {r(7), r(7)}}},                    // one writer re-storing the same position, a reader alongside
+				{32, [][]ttOp{{w(7, 1, 1, 1)}, {w(7, 1, 1, 2)}, {w(7, 1, 1, 3)}}},               // three stores of the same position at the same ply and depth
 			}
 			if tier == "thorough" {
 				ps = append(ps,
